@@ -192,6 +192,19 @@ def walk(port, prefix):
     return out
 
 
+def home_listing(port, w):
+    """what discovery shows: (href, resource types) of everything in the two home sets"""
+    out = set()
+    for trail in w.get("trail", []):
+        if trail and trail[0] in ("calendars", "addressbooks") and len(trail) > 1 and isinstance(trail[1], str):
+            rs = propfind(port, trail[1], "1", "<D:resourcetype/>")
+            for x in rs or []:
+                t = x.prop_ok(DAV + "resourcetype")
+                kinds = tuple(sorted(ch.tag for ch in t)) if t is not None else ()
+                out.add((resolve(trail[1], x.href or ""), kinds))
+    return sorted(out)
+
+
 def digest(directory):
     """Everything a restart must not touch: work-tree files, refs, HEAD, config, description."""
     out = {}
@@ -237,6 +250,7 @@ def run_config(frontend, prefix, principal, flagseq, storage="tree"):
             "storage": storage}
     try:
         prev_digest = None
+        prev_listing = None
         user = {}
         for k, flags in enumerate(flagseq):
             if flags == "none" and not os.path.isdir(directory):
@@ -244,7 +258,7 @@ def run_config(frontend, prefix, principal, flagseq, storage="tree"):
             before = digest(directory) if os.path.isdir(directory) else {}
             srv = Server(frontend, directory, prefix, principal, flags)
             rec = {"flags": flags, "up": srv.up, "wellknown": False, "principal_ok": False, "cal_ok": False,
-                   "ab_ok": False, "userdata_ok": True, "preserved": True, "trail": ""}
+                   "ab_ok": False, "userdata_ok": True, "preserved": True, "trail": "", "listing_same": True}
             try:
               try:
                 if srv.up:
@@ -254,6 +268,10 @@ def run_config(frontend, prefix, principal, flagseq, storage="tree"):
                     rec["cal_ok"] = len(w["calendars"]) > 0
                     rec["ab_ok"] = len(w["addressbooks"]) > 0
                     rec["trail"] = repr(w["trail"])[:600]
+                    if prev_listing is not None and flags != "defaults" and storage == "tree":
+                        # (a start with --defaults may add the default collections; a calendar that
+                        #  was converted to a bare repository in between is judged by its contents)
+                        rec["listing_same"] = home_listing(srv.port, w) == prev_listing
                     after_start = digest(directory)
                     # nothing that existed before this start may have changed or vanished
                     rec["preserved"] = all(after_start.get(p) == h for p, h in before.items())
@@ -275,10 +293,21 @@ def run_config(frontend, prefix, principal, flagseq, storage="tree"):
                                 user["cal2"] = c2
                                 # the user describes the collections: free text of several
                                 # paragraphs, with the characters configuration files care about
+                                # ... and makes a collection with a plain MKCOL (a generic WebDAV
+                                # client), then puts an event into it
+                                c3 = urllib.parse.urljoin(cal, "../third/")
+                                if http(srv.port, "MKCOL", c3).status in range(200, 300):
+                                    http(srv.port, "PUT", urllib.parse.urljoin(c3, "t.ics"), [("Content-Type", "text/calendar")],
+                                         gamma.ics_event("third-1@example.com", "in the plain collection"))
                                 for target, text in ((c2, "Second calendar\n\nshared with the team; 100% [draft] #1 = a:b"),
                                                      (cal, "Main\n\ncalendar")):
                                     http(srv.port, "PROPPATCH", target, [("Content-Type", "text/xml")],
                                          gamma.proppatch_body([("caldesc", text), ("comment", text), ("displayname", text.split("\n")[0])]))
+                if srv.up:
+                    try:
+                        prev_listing = home_listing(srv.port, walk(srv.port, prefix))
+                    except OSError:
+                        prev_listing = None
               except OSError as exc:
                 # the server stopped answering in the middle of the walk: an observation
                 rec["up"] = False
